@@ -103,7 +103,9 @@ def p2_build(size, perm):
     (pu,) = perm
     utils = [
         ("a", {"kind": "call_expression", "has": {"matches": "b", "stopBy": "end"}}),
-        ("b", {"kind": "number", "nthChild": {"position": 1, "ofRule": {"matches": "c"}}}),
+        # b's kind set comes only through ofRule of another utility and is cached in a conjunction
+        # with a kind-less key: registered before `c` it would have no kinds at all
+        ("b", {"nthChild": {"position": 1, "ofRule": {"matches": "c"}}, "regex": "^[0-9]"}),
         ("c", {"any": [{"kind": "number"}, {"kind": "string"}]}),
     ]
     if size >= 4:
@@ -119,6 +121,8 @@ def p2_build(size, perm):
          "transform": {"U": {"convert": {"source": "$I", "toCase": "upperCase"}}},
          "message": "identifier $I ($U) in a call with a leading number"},
     ]
+    rules.append({"id": "p2-first", "language": JS, "severity": "hint", "utils": u(),
+                  "rule": {"matches": "b"}, "message": "first literal argument"})
     if size >= 4:
         rules.append({"id": "p2-near", "language": JS, "severity": "hint", "utils": u(),
                       "rule": {"all": [{"matches": "e"}, {"pattern": "$I"}]},
